@@ -9,6 +9,7 @@ import (
 	"os"
 	"os/exec"
 	"path/filepath"
+	"reflect"
 	"regexp"
 	"runtime"
 	"runtime/debug"
@@ -358,6 +359,9 @@ func harnessSource(pr *Prog, pkg string) string {
 	if len(pr.Lib) > 0 && strings.Contains(inits, libAlias+".") {
 		imp = fmt.Sprintf("\nimport %s %q\n", libAlias, libPath(pkg))
 	}
+	if usesConvert(inits) {
+		imp += fmt.Sprintf("\nimport %q\n", convertPath)
+	}
 	fmt.Fprintf(&sb, "package %s\n%s%s\n%s", pkg, imp, harnessHelpers, inits)
 	sb.WriteString("func c14init() {\n")
 	for _, g := range pr.Globals {
@@ -551,8 +555,41 @@ func compileProg(name, src string) (nf *nef.File, di *compiler.DebugInfo, err er
 			crash = fmt.Sprintf("%v (%s)", r, strings.Join(at, " <- "))
 		}
 	}()
+	if src == "" {
+		// name is a directory: every file of the package in it
+		nf, di, err = compiler.CompileWithOptions(name, nil, nil)
+		return
+	}
 	nf, di, err = compiler.CompileWithOptions(name, strings.NewReader(src), nil)
 	return
+}
+
+// repoRoot is the source tree of the compiler this binary was built from (the module of a case that uses the interop
+// packages points there).
+func repoRoot() string {
+	if fn := runtime.FuncForPC(reflect.ValueOf(compiler.CompileWithOptions).Pointer()); fn != nil {
+		file, _ := fn.FileLine(fn.Entry())
+		if i := strings.Index(file, "/pkg/compiler/"); i > 0 {
+			if _, err := os.Stat(filepath.Join(file[:i], "pkg", "interop", "go.mod")); err == nil {
+				return file[:i]
+			}
+		}
+	}
+	if r := os.Getenv("VERIF_REPO"); r != "" {
+		return r
+	}
+	return "/repo"
+}
+
+// caseGoMod is the go.mod of the module of a case: nothing but the standard library, unless a program calls the convert
+// package of the interop module (a module of its own without dependencies, taken from the tree under test).
+func caseGoMod(interop bool) string {
+	m := "module c14mod\n\ngo 1.25.0\n"
+	if interop {
+		const im = "github.com/nspcc-dev/neo-go/pkg/interop"
+		m += fmt.Sprintf("\nrequire %s v0.0.0\n\nreplace %s => %s\n", im, im, filepath.Join(repoRoot(), "pkg", "interop"))
+	}
+	return m
 }
 
 type vmResult struct {
@@ -867,6 +904,12 @@ func hasFuncVar(pr *Prog) bool {
 			return true
 		}
 	}
+	for i := range pr.Lib {
+		// (a variable of the imported package)
+		if pr.Lib[i].AsVar {
+			return true
+		}
+	}
 	return false
 }
 
@@ -916,17 +959,32 @@ func checkCase(c Case, o *vt.Obs) error {
 		return fmt.Errorf("%w: %v", errHarness, err)
 	}
 	defer os.RemoveAll(dir)
-	if err := os.WriteFile(filepath.Join(dir, "go.mod"), []byte("module c14mod\n\ngo 1.25.0\n"), 0o644); err != nil {
-		return fmt.Errorf("%w: %v", errHarness, err)
-	}
 	srcs := make([]string, len(c.Progs))
+	neoAt := make([]string, len(c.Progs)) // what the neo-go compiler is given: prog.go, or a directory with the two files of the package
+	interop := false
 	for i := range c.Progs {
 		pd := filepath.Join(dir, pkgName(i))
 		_ = os.MkdirAll(pd, 0o755)
 		srcs[i] = c.Progs[i].Source(pkgName(i))
+		neoAt[i] = filepath.Join(pd, "prog.go")
 		if err := os.WriteFile(filepath.Join(pd, "prog.go"), []byte(srcs[i]), 0o644); err != nil {
 			return fmt.Errorf("%w: %v", errHarness, err)
 		}
+		if f2 := c.Progs[i].File2Name; f2 != "" {
+			// A package of two files. The Go toolchain finds them next to the companion file harness.go, which is no part
+			// of the contract: the neo-go compiler is given a directory that holds copies of the two files only.
+			src2 := c.Progs[i].Source2(pkgName(i))
+			nd := filepath.Join(dir, pkgName(i)+"neo")
+			_ = os.MkdirAll(nd, 0o755)
+			for _, w := range [][2]string{{filepath.Join(pd, f2), src2}, {filepath.Join(nd, "prog.go"), srcs[i]}, {filepath.Join(nd, f2), src2}} {
+				if err := os.WriteFile(w[0], []byte(w[1]), 0o644); err != nil {
+					return fmt.Errorf("%w: %v", errHarness, err)
+				}
+			}
+			neoAt[i] = nd
+			srcs[i] += "--- " + f2 + " ---\n" + src2
+		}
+		interop = interop || usesConvert(srcs[i])
 		if err := os.WriteFile(filepath.Join(pd, "harness.go"), []byte(harnessSource(&c.Progs[i], pkgName(i))), 0o644); err != nil {
 			return fmt.Errorf("%w: %v", errHarness, err)
 		}
@@ -940,6 +998,9 @@ func checkCase(c Case, o *vt.Obs) error {
 		}
 	}
 	if err := os.WriteFile(filepath.Join(dir, "main.go"), []byte(mainSource(len(c.Progs))), 0o644); err != nil {
+		return fmt.Errorf("%w: %v", errHarness, err)
+	}
+	if err := os.WriteFile(filepath.Join(dir, "go.mod"), []byte(caseGoMod(interop)), 0o644); err != nil {
 		return fmt.Errorf("%w: %v", errHarness, err)
 	}
 	// the Go toolchain works while this goroutine compiles with neo-go and runs the VM
@@ -966,7 +1027,11 @@ func checkCase(c Case, o *vt.Obs) error {
 	prs := make([]progRes, len(c.Progs))
 	for i := range c.Progs {
 		pr := &c.Progs[i]
-		nf, di, err, crash := compileProg(filepath.Join(dir, pkgName(i), "prog.go"), srcs[i])
+		neoSrc := srcs[i]
+		if pr.File2Name != "" {
+			neoSrc = ""
+		}
+		nf, di, err, crash := compileProg(neoAt[i], neoSrc)
 		if crash != "" {
 			prs[i].crash = crash
 			continue
@@ -977,7 +1042,7 @@ func checkCase(c Case, o *vt.Obs) error {
 		}
 		// the same source must give the same script every time (the verdicts below would otherwise depend on the run)
 		for k := 0; k < 2 && prs[i].unstable == "" && !vt.Known(kLambdaOrder) && !vt.Known(kBytesLitOrder); k++ {
-			nf2, _, err2, crash2 := compileProg(filepath.Join(dir, pkgName(i), "prog.go"), srcs[i])
+			nf2, _, err2, crash2 := compileProg(neoAt[i], neoSrc)
 			switch {
 			case crash2 != "" || err2 != nil:
 				prs[i].unstable = fmt.Sprintf("compiled the first time, then: %s %v", crash2, err2)
